@@ -127,6 +127,15 @@ func gen(tier string) []proto.Item {
 			s := proto.Scn{Variant: v, First: 1, Last: 4, Dest: 3, TimeoutMs: 300, DelayMs: 10}
 			s.SynAck = &simnet.SynAckSpec{Enabled: false}
 			items = append(items, proto.Item{Scn: s, Class: v + "/handshake/never-captured", Note: map[string]string{"extra": "0", "handshake_only": "1"}})
+			// degenerate SACK option contents on the run's own connection (a block whose edges coincide, an option without a
+			// complete block): whatever the run makes of them, it ends within its bound
+			for _, f := range []string{"sackEmpty", "sack0", "sackHalf"} {
+				for _, on := range []int{1, 3} {
+					s := proto.Scn{Variant: v, First: 1, Last: 4, Dest: 0, TimeoutMs: 300, DelayMs: 10, SilentElsewhere: true, MaxSteps: 20000, Hops: map[int]proto.HopSpec{1: {Silent: true}, 2: {Silent: true}, 3: {Silent: true}, 4: {Silent: true}}}
+					s.Inject = []proto.Inject{{OnTTL: on, AnswerTTL: on, Form: f, From: s.Target().String(), DelayUs: 500, Tag: "degenerate-sack"}}
+					items = append(items, proto.Item{Scn: s, Class: fmt.Sprintf("%s/degenerate-sack-option/%s-after-probe-%d", v, f, on), Note: map[string]string{"extra": "1"}})
+				}
+			}
 		}
 		// not the first run of its process: the packet-identifier allocator stands just below the 16-bit wrap (where it has
 		// to skip a range): the run still starts, and ends within its bound on a silent network
